@@ -11,7 +11,8 @@
                                     otherwise the operator applied to x and y.
    In Section [AnyOperators] the operator semantics [binop] is a variable: the theorems hold whatever the
    Python operators do on ints, floats or anything else.  [f] is the recursion fuel of the model. *)
-From Isobar Require Import Base.Prelude Pat.Val Pat.Syntax Pat.Step Pat.StepProofs Pat.Dunder Pat.OpProofs Pat.Ieee Pat.IeeeProofs.
+From Isobar Require Import Base.Prelude Pat.Val Pat.Syntax Pat.Step Pat.StepProofs Pat.Dunder Pat.OpProofs Pat.Ieee Pat.IeeeProofs
+  Pat.IeeeSpecial Pat.IeeeSpecialProofs.
 From Coq Require Import String QArith.
 Open Scope Z_scope.
 
@@ -244,3 +245,124 @@ Example C08_nesting_rounding_nonvacuous :
   tree_vals binop_ieee 2 t = Some [(mkf 6305039478318695 (-51)); (mkf 5854679515581645 (-52))] /\
   obind (binop_ieee OAdd f01 f02) (fun s => binop_ieee OAdd x s) = Yield (mkf 3152519739159347 (-50)).
 Proof. split; [|split; vm_compute; reflexivity]. cbn [tree_ok]. repeat split; vm_compute; reflexivity. Qed.
+
+(* ---- the special IEEE values ------------------------------------------------------------------------------
+   NaN, +inf and -inf as operand values (stream elements, scalars on either side, or arising inside an expression:
+   inf - inf, 0.0 * inf, 1e308 * 10).  [val] has no constructor for them; Pat/IeeeSpecial.v gives the Python
+   semantics of the operators on  xf = XNaN | XInf neg | XFin q  and  xv = None | bool | int | xf,
+   and its encoding into [val] ([enc], [binop_sp]) under which the theorems of Section AnyOperators — proved
+   for ANY operator semantics — speak about operand streams that contain the special values. *)
+
+(* x >= y is NOT `not (x < y)`: they differ exactly when an operand is a NaN (both are then False / True) *)
+Theorem C08_special_ge_is_not_not_lt :
+  (forall x y, xge x y = negb (xlt x y) && negb (unordered x y)) /\
+  (forall x y, xle x y = negb (xgt x y) && negb (unordered x y)) /\
+  (forall x y, xge x y = negb (xlt x y) <-> unordered x y = false) /\
+  (xge XNaN XNaN = false /\ negb (xlt XNaN XNaN) = true).
+Proof.
+  split; [exact xge_spec|]. split; [exact xle_spec|]. split; [exact xge_is_not_lt_iff_ordered|].
+  exact xge_not_negb_xlt_witness.
+Qed.
+Print Assumptions C08_special_ge_is_not_not_lt.
+
+(* exactly one of x < y, x == y, x > y holds when neither operand is a NaN; none holds otherwise *)
+Theorem C08_special_trichotomy : forall x y,
+  (Nat.b2n (xlt x y) + Nat.b2n (xeq x y) + Nat.b2n (xgt x y))%nat = if unordered x y then 0%nat else 1%nat.
+Proof. exact x_trichotomy. Qed.
+Print Assumptions C08_special_trichotomy.
+
+(* every comparison with a NaN is False, except != *)
+Theorem C08_special_nan_compares_false : forall o y, is_cmp o = true ->
+  xcmp o XNaN y = op_eqb o ONe /\ xcmp o y XNaN = op_eqb o ONe.
+Proof. exact xcmp_nan. Qed.
+Print Assumptions C08_special_nan_compares_false.
+
+(* an ordering computed from the three-way value (a > b) - (a < b): right for > and <, right for >= and <= exactly
+   on ordered operands; on unordered ones it answers True where the Python operator answers False *)
+Theorem C08_special_threeway : forall x y,
+  gt3 x y = xgt x y /\ lt3 x y = xlt x y /\
+  ge3 x y = (xge x y || unordered x y) /\ le3 x y = (xle x y || unordered x y) /\
+  (ge3 x y = xge x y <-> unordered x y = false).
+Proof.
+  intros. split; [apply gt3_spec|]. split; [apply lt3_spec|]. split; [apply ge3_spec|].
+  split; [apply le3_spec | apply ge3_right_iff_ordered].
+Qed.
+Print Assumptions C08_special_threeway.
+
+(* the side condition of the swapped reflected forms holds for ALL operand values, special ones included: + and *
+   commute (also when an int operand is too large for a float), == != are symmetric, c < y is y > c *)
+Theorem C08_special_operators_reflect : forall o c y,
+  swapped_when_reflected o = true -> xelem (mirror o) y c = xelem o c y.
+Proof. exact xelem_reflected. Qed.
+Print Assumptions C08_special_operators_reflect.
+
+(* arithmetic: a NaN operand gives NaN; inf - inf, 0 * inf, inf / inf are NaN; a zero divisor raises whatever
+   the dividend is; a finite result is the correctly rounded one, beyond the finite range an infinity *)
+Theorem C08_special_nan_propagates : forall y,
+  xadd XNaN y = XNaN /\ xadd y XNaN = XNaN /\ xsub XNaN y = XNaN /\ xsub y XNaN = XNaN /\
+  xmul XNaN y = XNaN /\ xmul y XNaN = XNaN /\ xabs XNaN = XNaN /\ xneg XNaN = XNaN /\
+  (xtruthy y = true -> xdiv XNaN y = Yield XNaN) /\ xdiv y XNaN = Yield XNaN.
+Proof. exact nan_propagates. Qed.
+Print Assumptions C08_special_nan_propagates.
+
+Theorem C08_special_inf_arithmetic : forall s,
+  xsub (XInf s) (XInf s) = XNaN /\ xadd (XInf s) (XInf (negb s)) = XNaN /\
+  xmul (XInf s) (XFin 0) = XNaN /\ xmul (XFin 0) (XInf s) = XNaN /\
+  xdiv (XInf s) (XInf s) = Yield XNaN /\
+  (forall q, xadd (XInf s) (XFin q) = XInf s /\ xsub (XFin q) (XInf s) = XInf (negb s) /\
+             xdiv (XFin q) (XInf s) = Yield (XFin 0)) /\
+  xabs (XInf s) = XInf false /\ xtruthy (XInf s) = true /\ xtruthy XNaN = true.
+Proof. exact inf_arithmetic. Qed.
+Print Assumptions C08_special_inf_arithmetic.
+
+Theorem C08_special_rounding_or_overflow : forall q,
+  (exists r, round64 q = Yield r /\ fin_round q = XFin r) \/ (round64 q = Inexact /\ fin_round q = XInf (qneg q)).
+Proof. exact fin_round_cases. Qed.
+Print Assumptions C08_special_rounding_or_overflow.
+
+(* composition with the pattern-level law: [C08_lift] etc. hold for the operator semantics [binop_sp]; on operand
+   streams that are encodings of xv lists the i-th output of every PBinOp class is the encoding of [xelem o x_i y_i],
+   the i-th output of PAnd that of truthy x_i && truthy y_i (bool(nan) = True), and the swapped reflected forms
+   compute the element for the written order *)
+Theorem C08_special_lift : forall LMAX o f n a b xs ys a' b',
+  vals binop_sp LMAX f n a = Some (map enc xs, a') -> vals binop_sp LMAX f n b = Some (map enc ys, b') ->
+  outputs binop_sp LMAX (S f) n (PBinOp o a b)
+    = (zipw (fun x y => omap enc (xelem o x y)) xs ys, PBinOp o a' b').
+Proof. exact special_lift. Qed.
+Print Assumptions C08_special_lift.
+
+Theorem C08_special_and : forall LMAX f n a b xs ys a' b',
+  vals binop_sp LMAX f n a = Some (map enc xs, a') -> vals binop_sp LMAX f n b = Some (map enc ys, b') ->
+  outputs binop_sp LMAX (S f) n (PAnd a b)
+    = (zipw (fun x y => omap enc (xelem_and x y)) xs ys, PAnd a' b').
+Proof. exact special_and. Qed.
+Print Assumptions C08_special_and.
+
+Theorem C08_special_reflected_side_condition : forall o c y, swapped_when_reflected o = true ->
+  elem binop_sp (mirror o) (enc y) (enc c) = elem binop_sp o (enc c) (enc y).
+Proof. exact elem_sp_reflected. Qed.
+Print Assumptions C08_special_reflected_side_condition.
+
+(* conservative extension: wherever Pat/Ieee.v (finite floats, ints, bools, None) answers with a value, the semantics
+   with special values answers with the same value — the special strata and the older ones are compared with ONE
+   operator semantics on their common domain *)
+Theorem C08_special_conservative : forall o a b xa xb r,
+  xof_val a = Some xa -> xof_val b = Some xb -> binop_ieee o a b = Yield r ->
+  xbinop o xa xb = xlift (Yield r).
+Proof. exact xbinop_conservative. Qed.
+Print Assumptions C08_special_conservative.
+
+Example C08_special_nonvacuous :
+  (* ((U - V) * 2) >= (Z + 1) with U = 1.0 inf 3.0, V = 0.5 inf 4.0, Z = 0 0 0: element 1 is inf - inf = NaN, and
+     NaN >= 1 is False (a three-way comparison would say True); 1e308 * 10 is inf; nan & 1 is True *)
+  let inf := XF (XInf false) in
+  let sq (l : list xv) := AP (PSequence (AL (map (fun x => AV (enc x)) l)) (AV (VInt 1)) 0 0) in
+  let U := sq [xmk 1 0; inf; xmk 3 0] in let V := sq [xmk 1 (-1); inf; xmk 4 0] in let Z := sq [XI 0; XI 0; XI 0] in
+  fst (outputs binop_sp 100 30 3
+        (PBinOp OGe (AP (PBinOp OMul (AP (PBinOp OSub U V)) (AV (VInt 2)))) (AP (PBinOp OAdd Z (AV (VInt 1))))))
+    = [Yield (VBool true); Yield (VBool false); Yield (VBool false)] /\
+  ge3 XNaN (XFin 1) = true /\
+  xbinop OMul (xmk 4503599627370496 971) (XI 10) = Yield inf /\
+  xelem_and (XF XNaN) (XI 1) = Yield (XB true) /\
+  (exists a', vals binop_sp 100 20 3 U = Some (map enc [xmk 1 0; inf; xmk 3 0], a')).
+Proof. repeat split; try (vm_compute; reflexivity). eexists. vm_compute. reflexivity. Qed.
